@@ -374,13 +374,20 @@ fn into_asn<C: Context<Primary = Type>>(ty: &syn::Type, mut asn: AsnAttribute<C>
         r#type: if let Type::TypeReference(_, empty_tag) = asn.primary {
             Type::TypeReference(quote! { #ty }.to_string(), empty_tag.or(asn.tag))
         } else {
-            if let Type::Integer(int) = asn.primary.no_optional_mut() {
-                asn.consts
-                    .into_iter()
-                    .map(|c| match c {
-                        ConstLit::I64(name, value) => (name, value),
-                    })
-                    .for_each(|v| int.constants.push(v));
+            let consts = asn.consts.into_iter().map(|c| match c {
+                ConstLit::I64(name, value) => (name, value),
+            });
+            // named numbers and named bits belong to the innermost type
+            let mut target = asn.primary.no_optional_mut();
+            if let Type::Default(inner, _) = target {
+                target = inner.no_optional_mut();
+            }
+            match target {
+                Type::Integer(int) => consts.for_each(|v| int.constants.push(v)),
+                Type::BitString(bits) => {
+                    consts.for_each(|(name, value)| bits.constants.push((name, value as u64)))
+                }
+                _ => {}
             }
             asn.primary
         },
